@@ -172,7 +172,10 @@ def build_tape(scn, wd):
     """-> (tape path, expected dict) via bin2tap.main"""
     args = []
     exp = {}
-    tape = os.path.join(wd, 'prog.' + scn['tape_fmt'])
+    # the tape format is chosen from the file name extension by both tools, whatever its case
+    ext = scn['tape_fmt']
+    ext = (ext, ext.upper(), ext.capitalize())[scn['order_seed'] % 3]
+    tape = os.path.join(wd, 'prog.' + ext)
     if scn['screen']:
         scr = random.Random(scn['order_seed']).randbytes(6912)
         scr_file = os.path.join(wd, 'screen.scr')
